@@ -73,6 +73,7 @@ type stackRun struct {
 	sentBy  map[int]int
 	total   int
 	parties map[int]tss.MpcParty
+	direct  map[int]tss.KeyGenerator // mode "direct": the back ends wired without orchestrator, synchroniser and reliable broadcast
 }
 
 func (r *stackRun) log(o obj) {
@@ -134,7 +135,15 @@ func (g *recGen) Init(parties []uint16, threshold int, sendMsg func(msg []byte, 
 	})
 }
 func (g *recGen) OnMsg(b []byte, from uint16, broadcast bool) {
-	g.r.log(obj{"e": "onmsg", "node": g.node, "kind": kindOf(b), "from": int(from), "bc": broadcast})
+	// what a commitment commits to / what a reveal hashes to (first 8 bytes, hex): lets the trace specification check the binding
+	h := ""
+	if len(b) > 0 && b[0] == 2 {
+		h = hex.EncodeToString(b[1:minInt(len(b), 9)])
+	} else if len(b) > 0 && b[0] == 3 {
+		d := sha256.Sum256(b[1:])
+		h = hex.EncodeToString(d[:8])
+	}
+	g.r.log(obj{"e": "onmsg", "node": g.node, "kind": kindOf(b), "from": int(from), "bc": broadcast, "h": h})
 	g.inner.OnMsg(b, from, broadcast)
 }
 func (g *recGen) KeyGen(ctx context.Context) ([]byte, error) { return g.inner.KeyGen(ctx) }
@@ -168,7 +177,9 @@ func stackExec(t int, c stackCase) []obj {
 		id := id
 		kgf := func(party uint16) tss.KeyGenerator {
 			var inner tss.KeyGenerator
-			if c.Byz != nil && c.Byz.Node == id {
+			if c.Byz != nil && c.Byz.Node == id && c.Scheme == "ps" {
+				inner = &tamperPS{inner: &ps.TPS{Logger: scripted.Logger{}, Party: party, Curve: math.Curves[1], MessageLength: msgLen}, plan: c.Byz}
+			} else if c.Byz != nil && c.Byz.Node == id {
 				inner = newEvilBLS(r, id, c.Byz)
 			} else if c.Scheme == "eddsa" {
 				inner = eddsa.NewParty(party, scripted.Logger{})
@@ -178,6 +189,25 @@ func stackExec(t int, c stackCase) []obj {
 				inner = &bls.TBLS{Logger: scripted.Logger{}, Party: party}
 			}
 			return &recGen{inner: inner, r: r, node: id}
+		}
+		if c.Mode == "direct" {
+			g := kgf(uint16(id))
+			g.Init(all16, c.T, func(m []byte, bc bool, to uint16) {
+				dst := []uint16{to}
+				if bc {
+					dst = all16
+				}
+				flag := byte(0)
+				if bc {
+					flag = 1
+				}
+				r.send(id, uint8(tss.MsgTypeMPC), []byte{flag}, m, dst...)
+			})
+			if r.direct == nil {
+				r.direct = map[int]tss.KeyGenerator{}
+			}
+			r.direct[id] = g
+			continue
 		}
 		send := func(msgType uint8, topic []byte, m []byte, to ...uint16) { r.send(id, msgType, topic, m, to...) }
 		mf := func() map[tss.UniversalID]tss.PartyID { return membership }
@@ -206,6 +236,11 @@ func stackExec(t int, c stackCase) []obj {
 		ctx, cancel := context.WithTimeout(context.Background(), deadline)
 		cancels = append(cancels, cancel)
 		go func() {
+			if c.Mode == "direct" {
+				data, err := r.direct[id].KeyGen(ctx)
+				results <- kgres{id, data, err}
+				return
+			}
 			data, err := r.parties[id].KeyGen(ctx, c.N, c.T)
 			results <- kgres{id, data, err}
 		}()
@@ -287,7 +322,15 @@ func stackExec(t int, c stackCase) []obj {
 		}
 		r.mu.Unlock()
 		if m != nil {
-			r.parties[m.to].HandleMessage(m.m)
+			if c.Mode == "direct" {
+				// the receiver classifies the payload itself, as the orchestrator would
+				g := r.direct[m.to]
+				if _, bc, err := g.ClassifyMsg(m.m.Data); err == nil {
+					g.OnMsg(m.m.Data, uint16(m.from), bc)
+				}
+			} else {
+				r.parties[m.to].HandleMessage(m.m)
+			}
 		} else {
 			select {
 			case res := <-results:
@@ -391,6 +434,18 @@ func stackExec(t int, c stackCase) []obj {
 		}
 		if len(okNodes) >= c.T && len(okNodes) > 0 {
 			total, bad, perr := blsExercise(c, ids, okNodes, got[okNodes[0]].data, func(id int) []byte { return got[id].data }, rng)
+			r.log(obj{"e": "signcheck", "subsets": total, "bad": bad, "panic": perr})
+		}
+	}
+	if c.Sign && c.Scheme == "ps" {
+		okNodes := []int{}
+		for _, id := range ids {
+			if res, ok := got[id]; ok && res.err == nil && len(res.data) > 0 && (c.Byz == nil || c.Byz.Node != id) {
+				okNodes = append(okNodes, id)
+			}
+		}
+		if len(okNodes) >= c.T {
+			total, bad, perr := psExercise(c, ids, okNodes, msgLen, func(id int) []byte { return got[id].data }, rng)
 			r.log(obj{"e": "signcheck", "subsets": total, "bad": bad, "panic": perr})
 		}
 	}
@@ -543,4 +598,98 @@ func init() {
 			return stackJob{Cases: job.Cases[lo:hi], Base: lo}
 		}, em)
 	}
+}
+
+// PS: for every subset of the completers of size >= t: blind a message vector, sign with each member's stored share, unblind each
+// partial signature under that member's published key, prove knowledge for the subset and verify under the threshold key
+func psExercise(c stackCase, ids, okNodes []int, msgLen int, dataOf func(int) []byte, rng *rand.Rand) (total int, bad []string, perr string) {
+	defer func() {
+		if p := recover(); p != nil {
+			perr = fmt.Sprint(p)
+		}
+	}()
+	bad = []string{}
+	parties := make([]uint16, len(ids))
+	for i, id := range ids {
+		parties[i] = uint16(id)
+	}
+	signers := map[int]*ps.TPS{}
+	var tpk []byte
+	for _, id := range okNodes {
+		s := &ps.TPS{Logger: scripted.Logger{}, Party: uint16(id), Curve: math.Curves[1], MessageLength: msgLen}
+		s.Init(parties, c.T, func([]byte, bool, uint16) {})
+		if err := s.SetShareData(dataOf(id)); err != nil {
+			return 0, []string{fmt.Sprintf("SetShareData(%d): %v", id, err)}, ""
+		}
+		pk, err := s.ThresholdPK()
+		if err != nil {
+			return 0, []string{fmt.Sprintf("ThresholdPK(%d): %v", id, err)}, ""
+		}
+		if tpk == nil {
+			tpk = pk
+		}
+		signers[id] = s
+	}
+	var prover ps.Prover
+	if err := prover.Init(math.Curves[1], msgLen, tpk, parties); err != nil {
+		return 0, []string{"Prover.Init: " + err.Error()}, ""
+	}
+	var verifier ps.Verifier
+	if err := verifier.Init(math.Curves[1], msgLen, tpk); err != nil {
+		return 0, []string{"Verifier.Init: " + err.Error()}, ""
+	}
+	msg := make([][]byte, msgLen)
+	for i := range msg {
+		switch rng.Intn(4) {
+		case 0:
+			msg[i] = []byte{}
+		case 1:
+			msg[i] = []byte("same entry")
+		default:
+			msg[i] = make([]byte, 1+rng.Intn(40))
+			rng.Read(msg[i])
+		}
+	}
+	req, secret := prover.Blind(msg)
+	reqBytes := req.Bytes()
+	witness := map[int]ps.SignatureWitness{}
+	for _, id := range okNodes {
+		sig, err := signers[id].Sign(context.Background(), reqBytes)
+		if err != nil {
+			bad = append(bad, fmt.Sprintf("Sign(%d): %v", id, err))
+			continue
+		}
+		w, err := prover.UnBlind(uint16(id), sig, &secret)
+		if err != nil {
+			bad = append(bad, fmt.Sprintf("UnBlind(%d): %v", id, err))
+			continue
+		}
+		witness[id] = w
+	}
+	for _, sub := range subsetsOf(okNodes, c.T) {
+		total++
+		var who []uint16
+		var ws []ps.SignatureWitness
+		complete := true
+		for _, id := range sub {
+			w, ok := witness[id]
+			if !ok {
+				complete = false
+				break
+			}
+			who = append(who, uint16(id))
+			ws = append(ws, w)
+		}
+		if !complete {
+			continue
+		}
+		pi := prover.ProveKnowledgeOfSignature(&secret, who, ws)
+		if err := verifier.Verify(pi.Bytes()); err != nil {
+			bad = append(bad, fmt.Sprintf("subset %v: %v", sub, err))
+		}
+	}
+	if len(bad) > 6 {
+		bad = append(bad[:6], fmt.Sprintf("... %d more", len(bad)-6))
+	}
+	return
 }
